@@ -8,7 +8,7 @@ import (
 	"math"
 	"strings"
 	"sync"
-	"time"
+	"sync/atomic"
 
 	"github.com/cnotch/ipchub/av/codec"
 	"github.com/cnotch/ipchub/av/format/rtp"
@@ -355,29 +355,24 @@ func RunSync(c *Case, pkts []WPkt, order []int) ImplOut {
 	return out
 }
 
-// SentinelAU is the AAC access unit of the end-of-case marker packet
-var SentinelAU = []byte{0xde, 0xad, 0xbe, 0xef, 0x5e, 0x17}
-
-func sentinelPkt(seq uint16) WPkt {
-	pl := []byte{0, 16, byte(len(SentinelAU) >> 5), byte(len(SentinelAU) << 3)}
-	return WPkt{Ch: rtp.ChannelAudio, Seq: seq, TS: 0x7fffffff, Payload: append(pl, SentinelAU...)}
-}
-
-// RunDemuxer pushes the packets through a real rtp.Demuxer (its own goroutine).  The case
-// must have AAC configured: completion is recognised by a final well-formed AAC packet whose
-// AU is SentinelAU; the death of the goroutine by the panic it logs.  Hung=true only after a
-// very generous timeout with neither.
+// RunDemuxer pushes the packets through a real rtp.Demuxer (its own goroutine), one at a time,
+// waiting at the goroutine's schedule point (verifhook "rtpdemuxer.beforePop") until each packet
+// has been consumed; the death of the goroutine is recognised by the panic it logs.  Hung=true
+// only after a very generous timeout with neither.
 func RunDemuxer(c *Case, pkts []WPkt, order []int) ImplOut {
+	installHooks()
 	out := ImplOut{Alive: true}
 	vm, am := c.metas()
 	rec := NewRecorder()
 	lg := NewLogCapture()
+	d0 := atomic.LoadInt64(&cntDemux)
 	dm, err := rtp.NewDemuxer(vm, am, rec, lg.Logger())
 	if err != nil {
 		out.Skipped = "newdemuxer:" + err.Error()
 		return out
 	}
 	defer dm.Close()
+	pushed := int64(0)
 	for _, i := range order {
 		if i < 0 || i >= len(pkts) {
 			continue
@@ -389,37 +384,19 @@ func RunDemuxer(c *Case, pkts []WPkt, order []int) ImplOut {
 		}
 		checkPacket(p, pkts[i], &out)
 		dm.WriteRtpPacket(p)
-	}
-	sp, _ := MakePacket(sentinelPkt(0xfffe), 0)
-	dm.WriteRtpPacket(sp)
-	deadline := time.After(60 * time.Second)
-	done := false
-	for !done {
-		fs := rec.Snapshot()
-		if n := len(fs); n > 0 && fs[n-1].MediaType == codec.MediaTypeAudio && bytes.Equal(fs[n-1].Payload, SentinelAU) {
-			done = true
+		if !out.Alive {
+			continue
+		}
+		pushed++
+		ok, dead := waitFor(&cntDemux, d0+pushed+1, lg)
+		if dead {
+			out.Alive, out.Panic = false, lg.Panicked()
+		} else if !ok {
+			out.Hung, out.Alive = true, false
 			break
 		}
-		if m := lg.Panicked(); m != "" {
-			out.Panic = m
-			out.Alive = false
-			break
-		}
-		select {
-		case <-rec.notify:
-		case <-lg.notify:
-		case <-time.After(20 * time.Millisecond):
-		case <-deadline:
-			out.Hung = true
-			out.Alive = false
-			done = true
-		}
 	}
-	fs := rec.Snapshot()
-	if n := len(fs); n > 0 && bytes.Equal(fs[n-1].Payload, SentinelAU) {
-		fs = fs[:n-1]
-	}
-	out.Frames = toMFrames(fs, c, nil, nil)
+	out.Frames = toMFrames(rec.Snapshot(), c, nil, nil)
 	out.Sps, out.Pps, out.Vps = vm.Sps, vm.Pps, vm.Vps
 	return out
 }
